@@ -15,13 +15,9 @@ def run(ctx, report):
     from .c06 import _bban_level
     prog = ctx.program
     bban_cls = prog.get("schwifty.bban.BBAN")
-    todo, seen = [], set()
-    for reg_ in sorted(ctx.facts.registrations(), key=lambda x: x.key):
-        cc = reg_.prefix
-        if cc in seen or cc not in ctx.registry.countries or struct_positions(ctx.registry, cc) is None:
-            continue
-        seen.add(cc)
-        todo.append(cc)
+    # every country of the table, not only those with a registered algorithm: which algorithm (if any) judges a country is the
+    # tree's decision (a fallback to another country's algorithm must not let foreign exceptions escape either)
+    todo = [cc for cc in sorted(ctx.registry.countries) if struct_positions(ctx.registry, cc) is not None]
     ctx.facts.algorithm_table()
     pending = run_recorded_async(["R05-national"], lambda cc, rules: _bban_level(ctx, rules["R05-national"], cc, struct_positions(ctx.registry, cc), bban_cls, None), todo)
     m = IbanModel(ctx, with_validate=True)
@@ -42,7 +38,7 @@ def run(ctx, report):
     R.rule_funnel(b, report, "R05-funnel-bic", "BIC", [("init", "validate", "is_valid"), ("init_swift", "validate_swift")])
     R.rule_class_iban(m, report, "R05-class-iban")
     _class_bic(b, report)
-    r_nat = report.rule("R05-national", floor=20, what="BBAN-level national validation raises nothing but library exceptions for every registered country")
+    r_nat = report.rule("R05-national", floor=100, what="BBAN-level national validation raises nothing but library exceptions, for every country of the table (abstract structure-conforming BBANs)")
     for recs, _ in pending.get():
         replay({"R05-national": r_nat}, recs)
     report.not_decided += ["accuracy of the message texts; which of several simultaneous defects is reported (any present defect satisfies the statement)",
